@@ -164,7 +164,7 @@ func TestVerifC15FreeRun(t *testing.T) {
 
 			// ---- client
 			var fired atomic.Bool
-			watchdog := time.AfterFunc(60*time.Second, func() { fired.Store(true); n.Shutdown() })
+			watchdog := time.AfterFunc(wire.WatchdogDefault, func() { fired.Store(true); n.Shutdown() })
 			var conn net.Conn
 			res := drive.Call(90*time.Second, func() error {
 				args := &pt.Args{}
@@ -218,7 +218,7 @@ func TestVerifC15FreeRun(t *testing.T) {
 			case res.Panic != nil || wres.Panic != nil || rres.Panic != nil:
 				fail("VIOL[c15-panic]: Dial: %s; Read: %s; Write: %s", res.String(), rres.String(), wres.String())
 			case fired.Load() || res.TimedOut || wres.TimedOut || rres.TimedOut:
-				fail("VIOL[c15-wedge]: connection %d did not finish within 60 s; Dial: %s; Read: %s; Write: %s", connNo, res.String(), rres.String(), wres.String())
+				fail("VIOL[c15-wedge]: connection %d did not finish within the watchdog time; Dial: %s; Read: %s; Write: %s", connNo, res.String(), rres.String(), wres.String())
 			case res.Err != nil:
 				fail("VIOL[c15-handshake-rejected]: free-running Dial failed against the conforming server: %v", res.Err)
 			case srvErr != nil:
